@@ -7,8 +7,9 @@ coefficient vectors returned by the real fit against it.  All arithmetic is exac
   `F ndim (order nknots knotbits*)* (npts xbits*)* nrows (idx* zbits wbits)* ns smoothbits* np porder*`
       → `notspd N` | `spd N R glamM=<0|1> glamR=<0|1> cert=<0|1> sym=<0|1> Mnorm rnorm cstarnorm objstar minpivot`
         spec: `specM`, `specR`, `specFit` (exact elimination; `notspd` when a pivot is not positive);
-        `glamM/glamR`: the system assembled by the model of glam.c (`glamSystem`) equals the spec's (a per-instance
-        test of the n-d GLAM identity); `cert`: `M·c* = r` holds exactly; `sym`: `M` is symmetric.
+        `glamM/glamR`: the system assembled by the model of glam.c (`glamSystem`) equals the spec's (per-instance
+        re-check of the theorem `glam_eq_kron_C09`); `spd` is a proved certificate (`specFit_certifies_posDef`);
+        `cert`: `M·c* = r` holds exactly; `sym`: `M` is symmetric.
   `C ncoef cbits32*` → `resid cnorm diff objhat maxres_hat maxres_star zmax`
         `resid = ‖M ĉ − r‖∞`, `diff = ‖ĉ − c*‖∞`, `objhat = objective ĉ`, `maxres = max_r |z_r − (B c)_r|`.
 -/
